@@ -176,8 +176,25 @@ async fn spawn_node_alone(
     name: &str,
     host: &str,
 ) -> Option<(ActorRef<NodeServerMessage>, ractor::concurrency::JoinHandle<()>, usize)> {
+    spawn_node_on(ctl, rng, st, name, host, None).await
+}
+
+/// `listen`: `with_listen_addr` (the listener binds that address directly) instead of the default
+/// dual-stack `[::]` socket.
+async fn spawn_node_on(
+    ctl: &ractor::verif::Controller,
+    rng: &mut Rng,
+    st: &mut Stats,
+    name: &str,
+    host: &str,
+    listen: Option<std::net::IpAddr>,
+) -> Option<(ActorRef<NodeServerMessage>, ractor::concurrency::JoinHandle<()>, usize)> {
     let first = ctl.len();
-    let f = tokio::spawn(Actor::spawn(None, NodeServer::new(0, "cookie".to_string(), name.to_string(), host.to_string(), None, None), ()));
+    let mut server = NodeServer::new(0, "cookie".to_string(), name.to_string(), host.to_string(), None, None);
+    if let Some(a) = listen {
+        server = server.with_listen_addr(a);
+    }
+    let f = tokio::spawn(Actor::spawn(None, server, ()));
     let mut guard = 0;
     while !f.is_finished() {
         schedule(ctl, rng, 50, st).await;
@@ -547,7 +564,18 @@ async fn tcp_refused(ctl: &ractor::verif::Controller, rng: &mut Rng, st: &mut St
     };
     let before = node.get_children().len();
     let d = node.clone();
-    let h = tokio::spawn(async move { ractor_cluster::client_connect(&d, ("127.0.0.1", port)).await.is_err() });
+    let h = tokio::spawn(async move {
+        match ractor_cluster::client_connect(&d, ("127.0.0.1", port)).await {
+            // the error must be the socket error, and say so
+            Err(e) => {
+                use std::error::Error;
+                #[allow(deprecated)]
+                let caused = e.cause().is_some();
+                matches!(e, ractor_cluster::node::client::ClientConnectErr::Socket(_)) && format!("{e}").contains("Socket") && caused
+            }
+            Ok(()) => false,
+        }
+    });
     let mut guard = 0;
     while !h.is_finished() && guard < 2000 {
         schedule(ctl, rng, 5, st).await;
@@ -573,15 +601,26 @@ struct TcpWorld {
     /// per node: connects to a dead port made / of which returned Err
     refused: [usize; 2],
     refused_errs: [usize; 2],
+    /// per node: link numbers of connections the HARNESS made to its listener while the process was
+    /// out of file descriptors (accept() failed with EMFILE until the descriptors came back)
+    starved: [Vec<u32>; 2],
 }
 
 impl TcpWorld {
     async fn new(rng: &mut Rng, st: &mut Stats, na: &str, nb: &str, host: &str) -> Option<TcpWorld> {
         let ctl = ractor::verif::install();
         let p0 = tcpq::listening_ports();
-        let (a, ha, _) = spawn_node_alone(&ctl, rng, st, na, host).await?;
+        // one node in two binds 127.0.0.1 explicitly (`with_listen_addr`), the other the default dual-stack socket
+        let v4 = Some(std::net::IpAddr::V4(std::net::Ipv4Addr::LOCALHOST));
+        let (la, lb) = match rng.below(4) {
+            0 => (v4, None),
+            1 => (None, v4),
+            2 => (v4, v4),
+            _ => (None, None),
+        };
+        let (a, ha, _) = spawn_node_on(&ctl, rng, st, na, host, la).await?;
         let p1 = tcpq::listening_ports();
-        let (b, hb, _) = spawn_node_alone(&ctl, rng, st, nb, host).await?;
+        let (b, hb, _) = spawn_node_on(&ctl, rng, st, nb, host, lb).await?;
         let p2 = tcpq::listening_ports();
         let pa = *p1.iter().find(|p| !p0.contains(p))?;
         let pb = *p2.iter().find(|p| !p1.contains(p))?;
@@ -590,7 +629,7 @@ impl TcpWorld {
         a.cast(NodeServerMessage::SubscribeToEvents { id: "v".into(), subscription: Box::new(Sub(ev_a.clone())) }).ok()?;
         b.cast(NodeServerMessage::SubscribeToEvents { id: "v".into(), subscription: Box::new(Sub(ev_b.clone())) }).ok()?;
         schedule(&ctl, rng, 200, st).await;
-        Some(TcpWorld { ctl, a, b, ha, hb, port: [pa, pb], ev_a, ev_b, links: Vec::new(), dialled_by_a: Vec::new(), refused: [0; 2], refused_errs: [0; 2] })
+        Some(TcpWorld { ctl, a, b, ha, hb, port: [pa, pb], ev_a, ev_b, links: Vec::new(), dialled_by_a: Vec::new(), refused: [0; 2], refused_errs: [0; 2], starved: [Vec::new(), Vec::new()] })
     }
 
     /// connection index `i` dialled by A (`a_dials`) or by B
@@ -643,6 +682,9 @@ impl TcpWorld {
             let i = idx.get(j).copied().unwrap_or(9990 + j);
             if (*by_a && side == 0) || (!*by_a && side == 1) { dial.push(i) } else { acc.push(i) }
         }
+        for n in 0..self.starved[side].len() {
+            acc.push(500 + n);
+        }
         acc.sort_unstable();
         dial.sort_unstable();
         let ev = if side == 0 { &self.ev_a } else { &self.ev_b };
@@ -652,7 +694,10 @@ impl TcpWorld {
             let g = tcpq::link_of(addr);
             let i = match self.links.iter().position(|l| Some(l.g) == g) {
                 Some(j) => idx.get(j).copied().unwrap_or(9990 + j),
-                None => 99900,
+                None => match self.starved[side].iter().position(|x| Some(*x) == g) {
+                    Some(n) => 500 + n,
+                    None => 99900,
+                },
             };
             if *is_server { srv.push(i) } else { cli.push(i) }
         }
@@ -673,9 +718,14 @@ impl TcpWorld {
         self.b.stop(None);
         schedule(&self.ctl, rng, 200_000, st).await;
         ractor::verif::uninstall();
+        // observation (not a clause): is a stopped node's port still bound?
+        let still: usize = tcpq::listening_ports().iter().filter(|p| self.port.contains(p)).count();
+        st.add("tcp_ports_still_listening_after_node_stop", still as u64);
         self.ha.abort();
         self.hb.abort();
         tcpq::settle().await;
+        let still: usize = tcpq::listening_ports().iter().filter(|p| self.port.contains(p)).count();
+        st.add("tcp_ports_still_listening_after_join_abort", still as u64);
     }
 }
 
@@ -715,6 +765,30 @@ async fn tcp_case(log: &mut Log, st: &mut Stats, rng: &mut Rng, case_no: u64) {
             w.refused_errs[side] += 1;
         }
         let _ = made; // a session made out of it shows in the `lsn` line (an opened session of no link)
+    }
+    if rng.chance(1, 4) {
+        // accept() ERRORS on the real listener: a connection waits in the accept queue while the process
+        // has no free descriptor (EMFILE); the listener must keep going and accept it once descriptors
+        // are back - exactly one server-side session for it (it is closed again before the election part)
+        let side = rng.below(2) as usize;
+        let g = LINK_NO.fetch_add(1, Ordering::SeqCst);
+        if let Ok(sock) = tcpq::dial_from(tcpq::link_ip(g), w.port[side]) {
+            let opened_before = (if side == 0 { &w.ev_a } else { &w.ev_b }).lock().unwrap().opened.len();
+            if let Some(guard) = tcpq::exhaust_fds() {
+                let n = *rng.pick(&[5usize, 40, 200]);
+                schedule(&w.ctl, rng, n, st).await;
+                let during = (if side == 0 { &w.ev_a } else { &w.ev_b }).lock().unwrap().opened.len();
+                if during == opened_before {
+                    st.bump("tcp_accept_starved");
+                }
+                drop(guard);
+            }
+            schedule(&w.ctl, rng, 400_000, st).await;
+            w.starved[side].push(g);
+            drop(sock);
+            schedule(&w.ctl, rng, 400_000, st).await;
+            st.bump("tcp_accept_error_phases");
+        }
     }
     let mut order: Vec<usize> = (0..k).collect();
     rng.shuffle(&mut order);
